@@ -48,7 +48,16 @@ type caseIn struct {
 	GuardMs    int    `json:"guard_ms,omitempty"`     // a pong sent within timeout +- guard may count either way
 	Traffic    bool   `json:"traffic,omitempty"`      // concurrent upstream chunk traffic
 	BPings     int    `json:"broker_pings,omitempty"` // pings the broker sends on receipt of each client ping
-	LinkFailMs int    `json:"linkfail_ms,omitempty"`  // >0: the link dies loudly this long after the first ping
+	// SlowCloseMs > 0: the transport's Close of the first connection takes this long (a close handshake
+	// with a silent peer); recovery must not wait for it
+	SlowCloseMs int `json:"slow_close_ms,omitempty"`
+	// LateReqs > 0: that many application requests (metadata / upstream open, alternating) are made with a
+	// LateDeadlineMs context deadline, one per interval; the broker answers each after LateAnswerMs, i.e.
+	// after its caller gave up; every ping is answered at once; an ordinary request follows
+	LateReqs       int `json:"late_reqs,omitempty"`
+	LateDeadlineMs int `json:"late_deadline_ms,omitempty"`
+	LateAnswerMs   int `json:"late_answer_ms,omitempty"`
+	LinkFailMs     int `json:"linkfail_ms,omitempty"` // >0: the link dies loudly this long after the first ping
 	// inbound flood: FloodAtMs after the first ping the broker sends FloodN items of one kind that the
 	// application does not consume (Consume "none") or consumes slowly ("slow"); every ping is answered
 	// at once; the window ends 3 intervals + timeout after the flood and an ordinary request follows
@@ -105,6 +114,8 @@ type obsT struct {
 	echo      []uint32
 	closeAt   int // -1 = not closed
 	horizon   int // >0: the window the run actually observed (flood cases)
+	recovered int // when both the disconnected event and the second ConnectRequest had been seen; -1 = never
+	lateErrs  int // abandoned requests that did not return context.DeadlineExceeded
 	overrun   int // ms between the planned end of the window and the moment the observation was taken
 	reqOK     bool
 	disc      bool
@@ -128,6 +139,69 @@ func call(f func() error) (err error, blocked bool) {
 
 func ms(d time.Duration) int { return int(d / time.Millisecond) }
 
+// ---------------------------------------------------------------- the harness transport
+//
+// The client end of the memtr link wrapped in a transport whose first Close / CloseWithStatus
+// reports the moment it is called (that is when the wire connection decided to close) and, for
+// the first connection of a slow-close case, takes a while to return - like a WebSocket close
+// handshake with a peer that no longer answers.  Registered under its own transport name; memtr
+// itself is unchanged.
+
+const kaTransportName = iscp.TransportName("verif-memtr-keepalive")
+
+type kaCloseCfg struct {
+	delay   time.Duration // Close of the first connection returns this long after it was called
+	onClose func(idx int, at time.Time)
+	dials   atomic.Int32
+}
+
+var kaCfgs sync.Map // broker address -> *kaCloseCfg
+
+type kaTransport struct {
+	*memtr.Client
+	idx   int
+	delay time.Duration
+	once  sync.Once
+	cfg   *kaCloseCfg
+}
+
+func (t *kaTransport) Close() error { return t.CloseWithStatus(transport.CloseStatusNormal) }
+func (t *kaTransport) CloseWithStatus(st transport.CloseStatus) error {
+	first := false
+	t.once.Do(func() { first = true })
+	if first {
+		if t.cfg != nil && t.cfg.onClose != nil {
+			t.cfg.onClose(t.idx, time.Now())
+		}
+		if t.delay > 0 {
+			time.Sleep(t.delay)
+		}
+	}
+	return t.Client.CloseWithStatus(st)
+}
+
+type kaDialer struct{}
+
+func (kaDialer) Dial(c transport.DialConfig) (transport.Transport, error) {
+	tr, err := broker.Dial(c)
+	if err != nil {
+		return nil, err
+	}
+	cl, ok := tr.(*memtr.Client)
+	if !ok {
+		return tr, nil
+	}
+	t := &kaTransport{Client: cl}
+	if v, ok := kaCfgs.Load(c.Address); ok {
+		t.cfg = v.(*kaCloseCfg)
+		t.idx = int(t.cfg.dials.Add(1)) - 1
+		if t.idx == 0 {
+			t.delay = t.cfg.delay
+		}
+	}
+	return t, nil
+}
+
 func runTiming(c *caseIn, r *rng.R) (o obsT) {
 	o.closeAt = -1
 	o.reqOK = true
@@ -149,6 +223,17 @@ func runTiming(c *caseIn, r *rng.R) (o obsT) {
 		accepted.Add(1)
 		return nil
 	}
+	var discAt, reconnAt time.Time
+	kaCfgs.Store(b.Address, &kaCloseCfg{delay: time.Duration(c.SlowCloseMs) * time.Millisecond, onClose: func(idx int, at time.Time) {
+		if idx == 0 {
+			mu.Lock()
+			if closedAt.IsZero() {
+				closedAt = at
+			}
+			mu.Unlock()
+		}
+	}})
+	defer kaCfgs.Delete(b.Address)
 	b.Handler = func(s *broker.Session, m message.Message) {
 		switch v := m.(type) {
 		case *message.ConnectRequest:
@@ -156,14 +241,12 @@ func runTiming(c *caseIn, r *rng.R) (o obsT) {
 				mu.Lock()
 				o.annI, o.annT = uint64(v.PingInterval/time.Second), uint64(v.PingTimeout/time.Second)
 				mu.Unlock()
-				go func() {
-					<-s.Link.ClientClosed()
-					now := time.Now()
-					mu.Lock()
-					closedAt = now
-					mu.Unlock()
-				}()
 			} else {
+				mu.Lock()
+				if reconnAt.IsZero() {
+					reconnAt = time.Now()
+				}
+				mu.Unlock()
 				reconnect.Store(true)
 			}
 			broker.AcceptConnect(s, v)
@@ -218,8 +301,27 @@ func runTiming(c *caseIn, r *rng.R) (o obsT) {
 				mu.Unlock()
 			}
 		case *message.UpstreamOpenRequest:
-			s.Send(&message.UpstreamOpenResponse{RequestID: v.RequestID, AssignedStreamID: streamID, AssignedStreamIDAlias: 1,
-				ResultCode: message.ResultCodeSucceeded, ServerTime: time.Unix(1700000000, 0)})
+			resp := &message.UpstreamOpenResponse{RequestID: v.RequestID, AssignedStreamID: streamID, AssignedStreamIDAlias: 1,
+				ResultCode: message.ResultCodeSucceeded, ServerTime: time.Unix(1700000000, 0)}
+			if v.SessionID == "late" {
+				resp.AssignedStreamID, resp.AssignedStreamIDAlias = uuid.New(), 7
+				go func() {
+					time.Sleep(time.Duration(c.LateAnswerMs) * time.Millisecond)
+					s.Send(resp)
+				}()
+				return
+			}
+			s.Send(resp)
+		case *message.UpstreamMetadata:
+			ack := &message.UpstreamMetadataAck{RequestID: v.RequestID, ResultCode: message.ResultCodeSucceeded, ResultString: "OK"}
+			if c.LateReqs > 0 {
+				go func() {
+					time.Sleep(time.Duration(c.LateAnswerMs) * time.Millisecond)
+					s.Send(ack)
+				}()
+				return
+			}
+			s.Send(ack)
 		case *message.UpstreamResumeRequest:
 			s.Send(&message.UpstreamResumeResponse{RequestID: v.RequestID, AssignedStreamIDAlias: 1, ResultCode: message.ResultCodeSucceeded})
 		case *message.UpstreamChunk:
@@ -250,10 +352,18 @@ func runTiming(c *caseIn, r *rng.R) (o obsT) {
 	var conn *iscp.Conn
 	err, blocked := call(func() error {
 		var err error
-		conn, err = iscp.Connect(b.Address, broker.TransportName,
+		conn, err = iscp.Connect(b.Address, kaTransportName,
 			iscp.WithConnPingInterval(time.Duration(c.IntervalMs)*time.Millisecond),
 			iscp.WithConnPingTimeout(time.Duration(c.TimeoutMs)*time.Millisecond),
-			iscp.WithConnDisconnectedEventHandler(iscp.DisconnectedEventHandlerFunc(func(*iscp.DisconnectedEvent) { ndisc.Add(1); disc.Store(true) })),
+			iscp.WithConnDisconnectedEventHandler(iscp.DisconnectedEventHandlerFunc(func(*iscp.DisconnectedEvent) {
+				mu.Lock()
+				if discAt.IsZero() {
+					discAt = time.Now()
+				}
+				mu.Unlock()
+				ndisc.Add(1)
+				disc.Store(true)
+			})),
 			iscp.WithConnReconnectedEventHandler(iscp.ReconnectedEventHandlerFunc(func(*iscp.ReconnectedEvent) { nrecon.Add(1) })))
 		return err
 	})
@@ -384,6 +494,27 @@ func runTiming(c *caseIn, r *rng.R) (o obsT) {
 			defer tm.Stop()
 		}
 	}
+	var lateErrs atomic.Int32
+	if c.LateReqs > 0 {
+		wg.Add(1)
+		go func() {
+			defer wg.Done()
+			for i := 0; i < c.LateReqs; i++ {
+				time.Sleep(time.Until(start.Add(time.Duration(15+i*c.IntervalMs) * time.Millisecond)))
+				ctx, cancel := context.WithTimeout(context.Background(), time.Duration(c.LateDeadlineMs)*time.Millisecond)
+				var err error
+				if i%2 == 0 {
+					err = conn.SendBaseTime(ctx, &message.BaseTime{SessionID: "s", Name: "b", Priority: 1, BaseTime: time.Unix(1700000000, 0)})
+				} else {
+					_, err = conn.OpenUpstream(ctx, "late", iscp.WithUpstreamFlushPolicyNone(), iscp.WithUpstreamCloseTimeout(100*time.Millisecond))
+				}
+				cancel()
+				if err == nil || !strings.Contains(err.Error(), context.DeadlineExceeded.Error()) {
+					lateErrs.Add(1)
+				}
+			}
+		}()
+	}
 	if c.FloodN > 0 {
 		s0 := b.WaitSession(0, wd)
 		floodDone := make(chan time.Time, 1)
@@ -433,8 +564,8 @@ func runTiming(c *caseIn, r *rng.R) (o obsT) {
 		}
 		time.Sleep(500 * time.Microsecond)
 	}
-	if c.FloodN > 0 {
-		// an ordinary request must still work after the flood
+	if c.FloodN > 0 || c.LateReqs > 0 {
+		// an ordinary request must still work after the flood / the late answers
 		err, blocked := call(func() error {
 			ctx, cancel := context.WithTimeout(context.Background(), time.Second)
 			defer cancel()
@@ -468,6 +599,14 @@ func runTiming(c *caseIn, r *rng.R) (o obsT) {
 	if !closedAt.IsZero() {
 		res.closeAt = ms(closedAt.Sub(t0))
 	}
+	res.recovered = -1
+	if !discAt.IsZero() && !reconnAt.IsZero() {
+		res.recovered = ms(discAt.Sub(t0))
+		if x := ms(reconnAt.Sub(t0)); x > res.recovered {
+			res.recovered = x
+		}
+	}
+	res.lateErrs = int(lateErrs.Load())
 	res.disc, res.reconnect = disc.Load(), reconnect.Load()
 	return res
 }
@@ -489,7 +628,7 @@ func runAnnounce(c *caseIn) (o obsT) {
 	var conn *iscp.Conn
 	err, blocked := call(func() error {
 		var err error
-		conn, err = iscp.Connect(b.Address, broker.TransportName,
+		conn, err = iscp.Connect(b.Address, kaTransportName,
 			iscp.WithConnPingInterval(time.Duration(c.IntervalNs)), iscp.WithConnPingTimeout(time.Duration(c.TimeoutNs)))
 		return err
 	})
@@ -531,6 +670,9 @@ func miss(c *caseIn, o *obsT) string {
 	}
 	if !o.reqOK {
 		return "ok:request-after-flood"
+	}
+	if o.lateErrs > 0 {
+		return "late-request-not-abandoned" // the harness did not realise the scenario
 	}
 	if o.overrun > 80 {
 		return "harness-stalled" // the whole process stood still: the observation is not a consistent snapshot
@@ -621,6 +763,9 @@ func miss(c *caseIn, o *obsT) string {
 		if t > T+c.IntervalMs+c.TimeoutMs+slack {
 			return "ok:detection-bound"
 		}
+		if o.recovered < 0 || o.recovered > T+c.IntervalMs+c.TimeoutMs+slack {
+			return "ok:recovery-bound"
+		}
 		notBefore := base+c.TimeoutMs <= t+early
 		if c.LinkFailMs > 0 {
 			if !(c.LinkFailMs <= t+early || notBefore) {
@@ -664,7 +809,7 @@ func u32List(xs []uint32) string {
 
 func term(c *caseIn, o *obsT) string {
 	if c.Kind == "announce" {
-		return fmt.Sprintf("mkKaCase 1 %d %d (mkScript [] None None) 0 0 0 0 [] [] [] true None [] false false true (%d, %d)",
+		return fmt.Sprintf("mkKaCase 1 %d %d (mkScript [] None None) 0 0 0 0 [] [] [] true None [] false false None true (%d, %d)",
 			c.IntervalNs, c.TimeoutNs, o.annI, o.annT)
 	}
 	pidsOK := true
@@ -677,10 +822,10 @@ func term(c *caseIn, o *obsT) string {
 	if o.horizon > 0 {
 		H = o.horizon
 	}
-	return fmt.Sprintf("mkKaCase 0 %d %d (mkScript %s %s %s) %d %d %d %d %s %s %s %s %s %s %s %s %s (%d, %d)",
+	return fmt.Sprintf("mkKaCase 0 %d %d (mkScript %s %s %s) %d %d %d %d %s %s %s %s %s %s %s %s %s %s (%d, %d)",
 		c.IntervalMs, c.TimeoutMs, optList(c.Delays), coqfmt.Opt(fmt.Sprint(c.Rest), c.Rest >= 0), coqfmt.Opt(fmt.Sprint(c.LinkFailMs), c.LinkFailMs > 0),
 		H, c.SlackMs, c.EarlyMs, c.GuardMs, u32List(o.bpings), intList(o.ptimes), optList(o.pongs), coqfmt.Bool(pidsOK),
-		coqfmt.Opt(fmt.Sprint(o.closeAt), o.closeAt >= 0), u32List(o.echo), coqfmt.Bool(o.disc), coqfmt.Bool(o.reconnect), coqfmt.Bool(o.reqOK), o.annI, o.annT)
+		coqfmt.Opt(fmt.Sprint(o.closeAt), o.closeAt >= 0), u32List(o.echo), coqfmt.Bool(o.disc), coqfmt.Bool(o.reconnect), coqfmt.Opt(fmt.Sprint(o.recovered), o.recovered >= 0), coqfmt.Bool(o.reqOK), o.annI, o.annT)
 }
 
 // ---------------------------------------------------------------- generators
@@ -749,6 +894,9 @@ func genDead(r *rng.R, slack, early int) *caseIn {
 	}
 	c.Traffic = r.Chance(1, 2)
 	c.BPings = r.Intn(3)
+	if r.Chance(1, 4) {
+		c.SlowCloseMs = []int{300, 1000}[r.Intn(2)]
+	}
 	_, mc := expect(c, 1<<20)
 	c.HorizonMs = mc + slack + 100
 	return c
@@ -824,6 +972,23 @@ func genFloods(slack, early int, add func(*caseIn, string)) {
 	}
 }
 
+// alive with late answers to abandoned requests: the caller of a request gives up after 30-50 ms,
+// the broker answers it after 150 ms; pings are answered at once; the connection must stay
+func genLateAnswers(slack, early int, add func(*caseIn, string)) {
+	k := 0
+	for _, I := range []int{40, 80} {
+		for _, TO := range []int{20, 60} {
+			for _, n := range []int{1, 2, 4} {
+				c := &caseIn{Kind: "timing", IntervalMs: I, TimeoutMs: TO, SlackMs: slack, EarlyMs: early, Rest: 0, BPings: k % 2,
+					LateReqs: n, LateDeadlineMs: []int{30, 40, 50}[k%3], LateAnswerMs: 150}
+				c.HorizonMs = 15 + (n-1)*I + c.LateAnswerMs + 3*I + TO + 10
+				k++
+				add(c, "alive-late-answers")
+			}
+		}
+	}
+}
+
 func genAnnounce(r *rng.R, i int) *caseIn {
 	s := uint64(time.Second)
 	fixed := [][2]uint64{
@@ -862,6 +1027,8 @@ func main() {
 	retrycap := flag.Int("retrycap", 60, "re-run at most this many missing cases")
 	guard := flag.Int("guard", 4, "a pong sent within timeout +- guard ms may count as in time or late")
 	flag.Parse()
+	broker.New(nil).Release() // registers the plain memtr dialer (once) before ours
+	iscp.VerifRegisterDialer(kaTransportName, func() transport.Dialer { return kaDialer{} })
 	w := coqfmt.NewWriter(*out, "C15", "From Iscp Require Import Model.KeepAlive.", "ka_case", "ka_judge", 150)
 	r := rng.New(*seed)
 	type job struct {
@@ -910,6 +1077,9 @@ func main() {
 					for _, f := range []int{5, 9} {
 						for _, last := range []int{-1, 15} {
 							c := &caseIn{Kind: "timing", IntervalMs: I, TimeoutMs: TO, SlackMs: *slack, EarlyMs: *early, Rest: -1, BPings: 1, Traffic: k%2 == 1}
+							if f == 5 { // half of the grid with a transport whose Close is slow
+								c.SlowCloseMs = []int{300, 1000}[k%2]
+							}
 							for i := 0; i < k; i++ {
 								c.Delays = append(c.Delays, frac(TO, f))
 							}
@@ -931,6 +1101,7 @@ func main() {
 		}
 		genFloods(*slack, *early, add)
 		genAliveSlow(*slack, *early, r.Fork(), add)
+		genLateAnswers(*slack, *early, add)
 		for i := 0; i < nloud; i++ {
 			add(genLoud(r.Fork(), *slack, *early), "loud")
 		}
@@ -1018,10 +1189,10 @@ func main() {
 		}
 		obs := map[string]interface{}{"ping_times": o.ptimes, "pong_times": o.pongs, "ping_ids": o.pids, "close": o.closeAt,
 			"broker_pings": o.bpings, "echo": o.echo, "disconnected_event": o.disc, "reconnect": o.reconnect,
-			"announced": []uint64{o.annI, o.annT}, "attempts": o.attempts, "request_after_flood_ok": o.reqOK, "observed_window_ms": o.horizon}
+			"announced": []uint64{o.annI, o.annT}, "attempts": o.attempts, "request_after_flood_ok": o.reqOK, "recovered": o.recovered, "late_requests_not_abandoned": o.lateErrs, "observed_window_ms": o.horizon}
 		w.Add(coqfmt.Case{Term: term(j.c, o), Input: j.c, Observed: obs, Seed: j.seed, Nontrivial: nt, Kind: j.kind, Direct: o.direct})
 	}
-	rule := "timing: interval {40,80,150} ms x timeout {20,60} ms plus timeout > interval pairs (40,120) (50,150) (and (40,200) (80,200) in alive-slow: every pong of 4-6 or of all pings after 0.6/0.75/0.9 x timeout, longer than the interval, so that pings leave back to back on buffered ticks - the client must stay); the broker answers k=0..5 pings after 0/0.5x/0.9x timeout and then stops or answers after 1.5x timeout (dead), or keeps answering in time (alive), or answers in time while the link dies loudly between two pings or while a pong is under way (loud); inbound flood: the broker sends 1030/1100/2100 (chunks and metadata also 3300) request calls / reply calls / downstream chunks / downstream metadata / upstream chunk acks that the application never consumes (or consumes slowly) while answering every ping at once - the connection must stay for 3 intervals + timeout after the flood and an ordinary request must then succeed; half with concurrent chunk traffic and an open request, 0-2 broker pings per client ping; grid of every (interval, timeout, k<=3, delay, stop/late) plus random. announce: fixed table (1500 ms, 999 ms, 1 s, 2 h, 0 = default, 2^32 s wrap, 2^24 s - 1 ns) plus random durations. non-trivial = at least two pings reached the broker (timing) / a duration that is not a whole number of seconds (announce); distinct = distinct Coq case terms"
+	rule := "timing: interval {40,80,150} ms x timeout {20,60} ms plus timeout > interval pairs (40,120) (50,150) (and (40,200) (80,200) in alive-slow: every pong of 4-6 or of all pings after 0.6/0.75/0.9 x timeout, longer than the interval, so that pings leave back to back on buffered ticks - the client must stay); the broker answers k=0..5 pings after 0/0.5x/0.9x timeout and then stops or answers after 1.5x timeout (dead), or keeps answering in time (alive), or answers in time while the link dies loudly between two pings or while a pong is under way (loud); inbound flood: the broker sends 1030/1100/2100 (chunks and metadata also 3300) request calls / reply calls / downstream chunks / downstream metadata / upstream chunk acks that the application never consumes (or consumes slowly) while answering every ping at once - the connection must stay for 3 intervals + timeout after the flood and an ordinary request must then succeed; a quarter of the dead and half of the grid-dead cases over a transport whose Close takes 300 ms / 1 s (recovery = disconnected event and second ConnectRequest must come within the bound all the same); alive-late-answers: 1/2/4 application requests (metadata, upstream open) abandoned after 30-50 ms and answered by the broker after 150 ms while every ping is answered at once, then an ordinary request; half with concurrent chunk traffic and an open request, 0-2 broker pings per client ping; grid of every (interval, timeout, k<=3, delay, stop/late) plus random. announce: fixed table (1500 ms, 999 ms, 1 s, 2 h, 0 = default, 2^32 s wrap, 2^24 s - 1 ns) plus random durations. non-trivial = at least two pings reached the broker (timing) / a duration that is not a whole number of seconds (announce); distinct = distinct Coq case terms"
 	extra := map[string]interface{}{"missed_first_run": missed, "retried": retried, "recovered_on_retry": recovered, "slack_ms": *slack, "early_ms": *early, "guard_ms": *guard, "parallel": *par}
 	if err := w.Flush(*seed, *tier, rule, false, extra); err != nil {
 		fmt.Fprintln(os.Stderr, err)
